@@ -7,7 +7,8 @@ def _run(ctx):
     bad = lib.tlc(ctx, "mc_storecrash_as_shipped", "MC_StoreCrash.tla", "MC_StoreCrash_as_shipped.cfg", workers=2, timeout=600,
                   expect_ok=False, count=False)
     with open(bad["out"], errors="replace") as f:
-        if "Invariant C23_CommandsKeepWorking is violated" not in f.read():
+        txt = f.read()
+        if "Invariant C23_CommandsKeepWorking is violated" not in txt and "Invariant C23_TaNeverTruncated is violated" not in txt:
             raise lib.ToolError("the as_shipped variant of StoreCrash.tla is not rejected by TLC")
     gen = lib.tlc(ctx, "gen_storecrash", "MC_StoreCrash.tla", "Gen_StoreCrash.cfg", workers=1, timeout=600, count=False)
     beh = ctx.path("storecrash.ndjson")
